@@ -10,8 +10,10 @@
      K <t>                                           process t was killed at its next gate
      F <role:mode,...>                               final listing of the directory
    kind=model : the model's event differs from the implementation's (the tie)
-   kind=spec  : the implementation's own verdicts violate the property (class=F3 marks the
-                known Dead-verdict-in-orderly-drop window) *)
+   kind=spec  : the implementation's own verdicts / calls violate the property.  class=N1 | N2 | N4 | F3
+                mark a RECORDED finding and are printed only when its exact preconditions are verified
+                on the observed calls of this execution (see `oracle preconditions` below); the same
+                symptom without them is class=UNKEYED-... and must be reported as a new violation. *)
 open Model
 
 let rec pos_of_int (i : int) : positive =
@@ -152,8 +154,19 @@ let compare_mode () =
   let cprogs = ref [||] and nrets = ref [||] in
   let cur_op t = let p = (!cprogs).(t) and k = (!nrets).(t) in if k < Array.length p then p.(k) else "" in
   let oracle = ref "" in
-  let op_started_after_death = ref [||] in (* per process: its running op began after the guard owner died *)
   let in_op = ref [||] in
+  (* oracle preconditions: indices (position in the case) of the last relevant call of each process *)
+  let evi = ref 0 in
+  let op_start = ref [||] and mutated = ref [||] in
+  let d_rm_state = ref [||] and d_rm_ctx = ref [||] in          (* inside the running drop/cdrop *)
+  let c_created = ref [||] and c_final = ref [||] in            (* inside the running create *)
+  let i_owner_open = ref [||] and i_state_open = ref [||] and i_setlk_ok = ref [||] and i_getlk_state = ref [||] in
+  let i_owner_remove = ref [||] and i_owner_close_drop = ref [||] and i_state_remove = ref [||] and i_state_close_drop = ref [||] in
+  let self_release = ref (-1) in          (* the holder closed an owner_lock descriptor outside its drop/abandon *)
+  let hold_since = ref (-1) in
+  let killed_in_drop = ref false and killed_in_create = ref false in
+  let holder_dropping () = !holder >= 0 && (!in_op).(!holder) && (cur_op !holder = "cdrop" || cur_op !holder = "cabandon") in
+  let op_started_after_death = ref [||] in   (* per process: its running op began after the guard owner died *)
   let mismatch kind msg =
     (if kind = "model" then incr mm_model else incr mm_spec);
     Printf.printf "MISMATCH case=%d kind=%s header=[%s] %s\n" !cases kind !header msg in
@@ -174,11 +187,25 @@ let compare_mode () =
        end;
        (match final with
         | Some f when !oracle = "collectable" && f <> "" ->
-          let cls = if !last_verdict = "Starting" then "UNCOLLECTABLE-STARTING" else if !last_verdict = "CleaningUp" then "UNCOLLECTABLE-CLEANINGUP" else "NEW" in
+          let roles = List.map (fun x -> List.hd (String.split_on_char ':' x)) (split_on ',' f) in
+          (* N2 exactly: a process was killed inside StateFiles::drop after its remove(state) and before its remove(context);
+             what remains is context (+ owner_lock), no state file; the survivor sees CleaningUp.
+             Starting residue (note): killed inside ProcessGuard creation after creating context, before its final chmod 0400 *)
+          let cls =
+            if !killed_in_drop && !last_verdict = "CleaningUp" && List.mem "ctx" roles && not (List.mem "state" roles) then "N2"
+            else if !killed_in_create && !last_verdict = "Starting" && List.mem "ctx:0200" (split_on ',' f) then "NOTE-STARTING"
+            else "UNKEYED-RESIDUE" in
           mismatch "spec" (Printf.sprintf "class=%s after the death of the process and a complete state/clean/cdrop/state round of a fresh process the files [%s] remain and the last verdict is %s" cls f !last_verdict)
         | _ -> ());
+       (match final with
+        | Some f when !holder >= 0 && not (holder_dropping ()) ->
+          let roles = List.map (fun x -> List.hd (String.split_on_char ':' x)) (split_on ',' f) in
+          if not (List.mem "ctx" roles && List.mem "state" roles && List.mem "owner" roles) then
+            mismatch "spec" (Printf.sprintf "class=%s process %d still holds the ProcessCleaner but only [%s] exist (while a cleaner holds the resources the three files exist)"
+                               (if !self_release >= 0 then "N4" else "UNKEYED-FILES-MISSING-UNDER-CLEANER") !holder f)
+        | _ -> ());
        if !oracle = "onewinner" && !clean_oks <> 1 then
-         mismatch "spec" (Printf.sprintf "racing cleaners on a dead process: %d of them returned Ok (expected exactly 1)" !clean_oks);
+         mismatch "spec" (Printf.sprintf "class=UNKEYED-ONEWINNER racing cleaners on a dead process: %d of them returned Ok (expected exactly 1)" !clean_oks);
        let key = Digest.string (Buffer.contents tracebuf) in
        if not (Hashtbl.mem seen key) then begin Hashtbl.add seen key (); incr distinct end);
     inst := None in
@@ -199,13 +226,50 @@ let compare_mode () =
          gone := Array.make n false; holder := -1; clean_oks := 0; oracle := kv rest "oracle" ""; cleaned_up := false; last_verdict := ""; winner := -1; legit_release := false;
          cprogs := Array.of_list (List.map (fun p -> Array.of_list (split_on ',' p)) (String.split_on_char '|' (kv rest "progs" ""))); nrets := Array.make n 0;
          op_started_after_death := Array.make n false; in_op := Array.make n false;
+         evi := 0; op_start := Array.make n 0; mutated := Array.make n false;
+         d_rm_state := Array.make n false; d_rm_ctx := Array.make n false; c_created := Array.make n false; c_final := Array.make n false;
+         i_owner_open := Array.make n (-1); i_state_open := Array.make n (-1); i_setlk_ok := Array.make n (-1); i_getlk_state := Array.make n (-1);
+         i_owner_remove := Array.make n (-1); i_owner_close_drop := Array.make n (-1); i_state_remove := Array.make n (-1); i_state_close_drop := Array.make n (-1);
+         self_release := -1; hold_since := -1; killed_in_drop := false; killed_in_create := false;
          Buffer.add_string tracebuf (kv rest "progs" "")
        | [ "E"; t; role; call; args; result; errno ] ->
          incr events; bump call;
          let t = int_of_string t in
          Buffer.add_string tracebuf (Printf.sprintf "%d%s%s%s;" t role call result);
          (* oracle bookkeeping *)
-         if not (!in_op).(t) then begin (!in_op).(t) <- true; (!op_started_after_death).(t) <- (!guard_owner >= 0 && not !guard_alive) end;
+         incr evi;
+         if not (!in_op).(t) then begin
+           (!in_op).(t) <- true; (!op_started_after_death).(t) <- (!guard_owner >= 0 && not !guard_alive);
+           (!op_start).(t) <- !evi; (!mutated).(t) <- false; (!d_rm_state).(t) <- false; (!d_rm_ctx).(t) <- false;
+           (!c_created).(t) <- false; (!c_final).(t) <- false end;
+         let op = cur_op t in
+         let ok = result <> "-1" in
+         let contains s sub = let ls = String.length s and lb = String.length sub in
+           let rec go i = i + lb <= ls && (String.sub s i lb = sub || go (i + 1)) in go 0 in
+         let mutating = List.mem call ["remove"; "unlink"; "fchmod"; "chmod"; "write"; "rename"; "ftruncate"; "mkdir"; "rmdir"]
+                        || (call = "open" && contains args "O_CREAT") in
+         if mutating && (op = "state" || op = "clean") then (!mutated).(t) <- true;
+         let dropping = op = "drop" || op = "cdrop" in
+         if call = "remove" && ok then begin
+           if role = "state" then begin (!i_state_remove).(t) <- !evi; if dropping then (!d_rm_state).(t) <- true end;
+           if role = "owner" then (!i_owner_remove).(t) <- !evi;
+           if role = "ctx" && dropping then (!d_rm_ctx).(t) <- true;
+           (* nobody but the owner of the ProcessCleaner removes anything while it holds the resources *)
+           if !holder >= 0 && t <> !holder && not (holder_dropping ()) then
+             mismatch "spec" (Printf.sprintf "class=%s process %d removes the %s file while process %d holds the ProcessCleaner"
+                                (if !self_release >= 0 then "N4" else "UNKEYED-REMOVAL-UNDER-CLEANER") t role !holder)
+         end;
+         if call = "close" && dropping then begin
+           if role = "owner" then (!i_owner_close_drop).(t) <- !evi;
+           if role = "state" then (!i_state_close_drop).(t) <- !evi end;
+         if call = "open" && ok then begin
+           if role = "owner" then (!i_owner_open).(t) <- !evi;
+           if role = "state" then (!i_state_open).(t) <- !evi;
+           if role = "ctx" && op = "create" then (!c_created).(t) <- true end;
+         if call = "fchmod" && role = "ctx" && op = "create" && args = "mode=0400" && ok then (!c_final).(t) <- true;
+         if call = "fcntl" && ok && contains args "F_SETLK" && role = "owner" then (!i_setlk_ok).(t) <- !evi;
+         if call = "fcntl" && contains args "F_GETLK" && role = "state" then (!i_getlk_state).(t) <- !evi;
+         if t = !holder && role = "owner" && call = "close" && not (op = "cdrop" || op = "cabandon") then self_release := !evi;
          if t = !guard_owner && role = "state" && call = "remove" then guard_removed_state := true;
          if t = !holder && role = "owner" && call = "close" && (cur_op t = "cdrop" || cur_op t = "cabandon") then begin
            holder := -1; legit_release := (cur_op t = "cabandon") end;
@@ -231,22 +295,50 @@ let compare_mode () =
          (* the property's oracle, on the implementation's own verdicts *)
          if op = "create" && token = "ok" then begin guard_owner := t; guard_alive := true; guard_removed_state := false; cleaned_up := false; winner := -1 end;
          if op = "state" then last_verdict := token;
+         incr evi;
          if op = "state" && token = "Dead" && !guard_owner >= 0 && !guard_alive then begin
-           if !guard_removed_state
-           then mismatch "spec" (Printf.sprintf "class=F3 process %d: state() = Dead while the guard process %d is alive (inside / after its orderly drop of the state file)" t !guard_owner)
-           else mismatch "spec" (Printf.sprintf "class=NEW process %d: state() = Dead while the guard process %d is alive and has not started removing its files" t !guard_owner) end;
+           (* F3 (fixed by a8f7c5d) exactly: the monitor opened the state file before the guard's drop removed it and
+              queried the lock after the guard's drop closed it *)
+           let g = !guard_owner in
+           if !guard_removed_state && (!i_state_open).(t) >= 0 && (!i_state_open).(t) < (!i_state_remove).(g)
+              && (!i_state_close_drop).(g) >= 0 && (!i_state_close_drop).(g) < (!i_getlk_state).(t)
+           then mismatch "spec" (Printf.sprintf "class=F3 process %d: state() = Dead while the guard process %d is alive (monitor open(state) before, F_GETLK after the guard's remove+close of the state file)" t g)
+           else mismatch "spec" (Printf.sprintf "class=UNKEYED-DEAD-WHILE-ALIVE process %d: state() = Dead while the guard process %d is alive, outside the recorded F3 call order" t g) end;
+         if (op = "state" || op = "clean") && (!mutated).(t) then
+           mismatch "spec" (Printf.sprintf "class=UNKEYED-QUERY-MUTATES process %d: %s returned %s after removing / changing files (a state() query and a ProcessCleaner::new, failed or not, must not remove, chmod, write or create anything)" t op token);
+         (* while a cleaner holds the resources every query that started afterwards observes CleaningUp *)
+         if op = "state" && !holder >= 0 && !guard_owner >= 0 && not !guard_alive && not (holder_dropping ())
+            && (!op_start).(t) > !hold_since && token <> "CleaningUp" then begin
+           let keyed = if t = !holder then !self_release >= (!op_start).(t) else !self_release >= 0 in
+           mismatch "spec" (Printf.sprintf "class=%s process %d: state() = %s while process %d holds the ProcessCleaner (expected CleaningUp)%s"
+                              (if keyed then "N4" else "UNKEYED-VERDICT-UNDER-CLEANER") t token !holder
+                              (if t = !holder then " -- the owner's own query opened and closed owner_lock" else "")) end;
          if op = "state" && token = "Alive" && !guard_owner >= 0 && not !guard_alive && (!op_started_after_death).(t) then
-           mismatch "spec" (Printf.sprintf "class=NEW process %d: state() = Alive although the guard process died before the call started" t);
+           mismatch "spec" (Printf.sprintf "class=UNKEYED-ALIVE-AFTER-DEATH process %d: state() = Alive although the guard process died before the call started" t);
          if op = "clean" && token = "ok" then begin
            incr clean_oks;
            if !guard_owner >= 0 && !guard_alive then
-             mismatch "spec" (Printf.sprintf "class=RECLAIM process %d: ProcessCleaner::new = Ok while the guard process %d is alive" t !guard_owner);
-           if !holder < 0 && !winner >= 0 && !winner <> t && not !legit_release then
-             mismatch "spec" (Printf.sprintf "class=SECOND-WINNER process %d: ProcessCleaner::new = Ok although process %d already won and performed the cleanup (its StateFiles::drop removed the files) for this dead process" t !winner);
+             mismatch "spec" (Printf.sprintf "class=UNKEYED-RECLAIM process %d: ProcessCleaner::new = Ok while the guard process %d is alive" t !guard_owner);
+           if !holder < 0 && !winner >= 0 && !winner <> t && not !legit_release then begin
+             (* N1 exactly: t opened owner_lock and state before the first winner w removed them (it holds descriptors of
+                the unlinked files) and its F_SETLK succeeded after w's drop closed owner_lock *)
+             let w = !winner in
+             let n1 = (!i_owner_remove).(w) >= 0 && (!i_state_remove).(w) >= 0 && (!i_owner_close_drop).(w) >= 0
+                      && (!i_owner_open).(t) >= 0 && (!i_owner_open).(t) < (!i_owner_remove).(w)
+                      && (!i_state_open).(t) >= 0 && (!i_state_open).(t) < (!i_state_remove).(w)
+                      && (!i_owner_close_drop).(w) < (!i_setlk_ok).(t) in
+             mismatch "spec" (Printf.sprintf "class=%s process %d: ProcessCleaner::new = Ok although process %d already won and performed the cleanup (its StateFiles::drop removed the files) for this dead process%s"
+                                (if n1 then "N1" else "UNKEYED-SECOND-WINNER") t w
+                                (if n1 then " -- opened owner_lock/state before their removal, F_SETLK on the unlinked owner_lock after the winner's close" else "")) end;
            winner := t; legit_release := false;
-           if !holder >= 0 && !holder <> t then
-             mismatch "spec" (Printf.sprintf "class=TWO-OWNERS process %d: ProcessCleaner::new = Ok while process %d still owns the cleaner" t !holder);
-           holder := t end;
+           if !holder >= 0 && !holder <> t then begin
+             (* N4 exactly: the holder itself closed an owner_lock descriptor outside its drop (its own state()/new() query)
+                before this process' F_SETLK succeeded *)
+             let n4 = !self_release >= 0 && !self_release < (!i_setlk_ok).(t) in
+             mismatch "spec" (Printf.sprintf "class=%s process %d: ProcessCleaner::new = Ok while process %d still owns the cleaner%s"
+                                (if n4 then "N4" else "UNKEYED-TWO-OWNERS") t !holder
+                                (if n4 then " -- after the owner's own query closed an owner_lock descriptor" else "")) end;
+           holder := t; hold_since := !evi; self_release := -1 end;
          if op = "cdrop" && !holder = t then cleaned_up := true;
          if (op = "cdrop" || op = "cabandon") && !holder = t then holder := -1;
          (!in_op).(t) <- false; (!nrets).(t) <- (!nrets).(t) + 1;
@@ -266,6 +358,9 @@ let compare_mode () =
          let t = int_of_string t in
          Buffer.add_string tracebuf (Printf.sprintf "%dK;" t);
          bump "kill";
+         incr evi;
+         if (!in_op).(t) && (cur_op t = "drop" || cur_op t = "cdrop") && (!d_rm_state).(t) && not (!d_rm_ctx).(t) then killed_in_drop := true;
+         if (!in_op).(t) && cur_op t = "create" && (!c_created).(t) && not (!c_final).(t) then killed_in_create := true;
          if t = !guard_owner then guard_alive := false;
          if t = !holder then begin holder := -1; legit_release := true end;
          (!gone).(t) <- true;
